@@ -91,7 +91,7 @@ def _cond_facts(fn, cond, truth, out):
             add(ba, 0)
 
 
-def analyse(fn, entry):
+def analyse(fn, entry, post=None):
     """Returns {(block id, element index): State holding BEFORE that element} and {block id: State at block exit}."""
     if not isinstance(entry, State):
         entry = State(entry)
@@ -188,6 +188,8 @@ def analyse(fn, entry):
             if isinstance(e, int):
                 kill_facts(st, fn.nodes[e])
                 zone.step(fn, st.d, fn.nodes[e])
+                if post is not None:
+                    post(fn, st, fn.nodes[e])
             elif isinstance(e, dict) and 'decl' in e:
                 st.d.forget(('v', e['decl']))
         return st
@@ -260,11 +262,15 @@ def linform(fn, n):
     k = n['k']
     if k == 'IntegerLiteral':
         return {1: int(n['val'])}
+    if k == 'CXXMemberCallExpr' and zone.EXTENT_VALUE is not None and n.get('callee') in ('rows', 'cols', 'size'):
+        r = zone.EXTENT_VALUE(fn, n)
+        if r is not None:
+            return lf_of_lin(r)
     v = zone.var_of(fn, n)
     if v is not None:
         # a const local is its initialiser (its operands cannot change while it is in scope within one loop iteration:
         # loop counters advance only in the loop step, after every use)
-        if v[0] == 'v' and fn.locals[v[1]].get('const') and fn.locals[v[1]]['kind'] == 'var':
+        if v[0] == 'v' and fn.locals[v[1]].get('const') and fn.locals[v[1]]['kind'] == 'var' and zone.const_local_stable(fn, v[1]):
             for x in fn.walk():
                 if x['k'] == 'DeclStmt':
                     for d in x.get('decls', []):
@@ -439,3 +445,63 @@ def at_most(fn, z, n, ext, slack=0):
         if prove_nonpos(z, d):
             return True
     return False
+
+
+def linform_cases(fn, nodes, z):
+    """For index expressions containing std::max / std::min of linear parts: enumerate the choice made by each distinct
+    max / min expression (the same expression makes the same choice everywhere) and yield (zone refined with the choice's
+    defining inequality, [linear form of each node]).  Obligations must hold in every case."""
+    from .sym import sym, show
+    mm = {}
+    for n in nodes:
+        for y in fn.walk(n['id']):
+            if y['k'] == 'CallExpr' and y.get('callee') in ('max', 'min') and len(fn.call_args(y)) == 2:
+                mm.setdefault(show(sym(fn, y, inline=False)), y)
+    keys = sorted(mm)
+    if not keys:
+        yield z, [linform(fn, n) for n in nodes]
+        return
+    if len(keys) > 3:
+        yield z, [None for _ in nodes]
+        return
+    import itertools
+
+    def lf(n, choice):
+        n = fn.strip(n)
+        if n is None:
+            return None
+        if n['k'] == 'CallExpr' and n.get('callee') in ('max', 'min') and len(fn.call_args(n)) == 2:
+            key = show(sym(fn, n, inline=False))
+            return lf(fn.call_args(n)[choice[key]], choice)
+        if n['k'] == 'BinaryOperator' and n.get('op') in ('+', '-'):
+            a, b = lf(fn.nodes[n['c'][0]], choice), lf(fn.nodes[n['c'][1]], choice)
+            if a is None or b is None:
+                return None
+            sgn = 1 if n['op'] == '+' else -1
+            r = dict(a)
+            for kk, vv in b.items():
+                r[kk] = r.get(kk, 0) + sgn * vv
+            return {kk: vv for kk, vv in r.items() if vv != 0 or kk == 1}
+        return linform(fn, n)
+    for pick in itertools.product((0, 1), repeat=len(keys)):
+        choice = dict(zip(keys, pick))
+        zz = z.copy()
+        ok = True
+        for key in keys:
+            y = mm[key]
+            a = fn.call_args(y)
+            chosen, other = lf(a[choice[key]], choice), lf(a[1 - choice[key]], choice)
+            if chosen is None or other is None:
+                ok = False
+                break
+            # max picks `chosen` when chosen >= other; min when chosen <= other
+            L = lf_sub(other, chosen) if y['callee'] == 'max' else lf_sub(chosen, other)
+            from .contracts import add_fact
+            add_fact(zz, L)
+        if not ok:
+            yield z, [None for _ in nodes]
+            return
+        zz.close()
+        if zz.bot:
+            continue
+        yield zz, [lf(n, choice) for n in nodes]
